@@ -63,6 +63,9 @@ pub fn find_entry_contract(t: &IndexTable, key_prefix: u64, sub_index: usize, ch
 }
 
 pub fn entry_for(key_prefix: u64, address: u64, bits: u8) -> u64 { Entry::new(Address::from_u64(address), Entry::extract_key(key_prefix, bits), bits).as_u64() }
+pub fn mk_entry(address: Address, partial_key: u64, bits: u8) -> Entry { Entry::new(address, partial_key, bits) }
+pub fn empty_entry() -> Entry { Entry::empty() }
+pub fn entry_from(e: u64) -> Entry { Entry::from_u64(e) }
 pub fn chunk_index_of(t: &IndexTable, key_prefix: u64) -> u64 { t.chunk_index(key_prefix) }
 
 pub fn entry_at(chunk: &Chunk, i: usize) -> u64 {
